@@ -464,6 +464,138 @@ def oracle_mutated_table(ctx, rng):
                 check_frame_header(ctx, case, bytes(l.got.pduData).hex(), CODE_OF[cls_name], "stale-length-emitted")
 
 
+# ---------------------------------------------------------------- frames the service elements produce
+
+def service_stream(ctx, rng):
+    """"Every BVLL frame the library produces": the REAL BIPSimple / BIPForeign /
+    BIPBBMD elements of bvllservice.py are bound on top of a real AnnexJCodec
+    (with a transparent tap in between that records the message objects they
+    build) and driven from above (NPDUs to send) and from below (datagrams of
+    all twelve functions).  Every frame that comes out below the codec is
+    checked (0x81, function, own length; Annex J reading == the object that was
+    handed to the codec) and compared with the model's encoding of that object.
+    Foreign-device TTLs stay <= 65530 here: BIPBBMD stores remaining = TTL + 5,
+    which no longer fits the 16-bit field above that (see notes/C09.md; C13's
+    subject, not the codec's)."""
+    from .vt import VT
+    vt = VT.install()
+    from bacpypes.comm import Client, Server, ApplicationServiceElement, bind
+    from bacpypes.bvllservice import AnnexJCodec, BIPSimple, BIPForeign, BIPBBMD
+    from bacpypes.pdu import Address, PDU, LocalBroadcast
+    from bacpypes.errors import EncodingError
+
+    tapped, sent = [], []
+
+    class ASE(ApplicationServiceElement):
+        def confirmation(self, pdu):
+            pass
+
+    class Top(Client):
+        def confirmation(self, pdu):
+            pass
+
+    class Tap(Client, Server):
+        def indication(self, pdu):
+            tapped.append((jmsg(pdu), pdu.bvlciLength))
+            self.request(pdu)
+
+        def confirmation(self, pdu):
+            self.response(pdu)
+
+    class Bottom(Server):
+        def indication(self, pdu):
+            sent.append(bytes(pdu.pduData))
+
+    def ip(rng):
+        return ("%d.%d.%d.%d" % tuple(rng.choice(IPS + [10, 192]) for _ in range(4)), rng.choice([1, 47808, 47809, 65535]))
+
+    cases, impl_replies = [], []
+    n_scen = 60 if ctx.quick else 1200
+    lens = payload_lengths(ctx, rng)
+    for sc in range(n_scen):
+        vt.reset()
+        del tapped[:], sent[:]
+        kind = ("simple", "foreign", "bbmd")[sc % 3]
+        me = Address(ip(rng))
+        bbmd_addr = Address(ip(rng))
+        if kind == "simple":
+            el = BIPSimple()
+        elif kind == "foreign":
+            el = BIPForeign(bbmd_addr, rng.choice([1, 30, 600, 65530]))
+        else:
+            el = BIPBBMD(me)
+            for _ in range(rng.choice([0, 1, 2, 5, 40])):
+                a = ip(rng)
+                el.add_peer(Address("%s/%d:%d" % (a[0], rng.choice([0, 8, 24, 31, 32]), a[1])))
+            for _ in range(rng.choice([0, 1, 3, 40])):
+                el.register_foreign_device(Address(ip(rng)), rng.choice([1, 30, 600, 65530]))
+        top, tap, codec, bottom = Top(), Tap(), AnnexJCodec(), Bottom()
+        bind(top, el, tap, codec, bottom)
+        bind(ASE(), el)
+        events = []
+        if kind == "foreign":
+            events += [("run",), ("up", spec_frame([0x00, 0]), bbmd_addr)]
+        for _ in range(14):
+            r = rng.random()
+            data = bytes.fromhex(rnd(rng, rng.choice(lens)))
+            if r < .25:
+                events.append(("down", Address(ip(rng)), data))
+            elif r < .4:
+                events.append(("down", LocalBroadcast(), data))
+            else:
+                m = rng.choice([[0x00, rng.choice([0, 0x30, 65535])], [0x01, bdt(rng, rng.choice([0, 1, 3]))], [0x02],
+                                [0x03, bdt(rng, 2)], [0x04, ipaddr(rng), data.hex()], [0x05, rng.choice([0, 1, 30, 65530])],
+                                [0x06], [0x07, fdt(rng, 1)], [0x08, ipaddr(rng)], [0x09, data.hex()],
+                                [0x0A, data.hex()], [0x0B, data.hex()]])
+                src = bbmd_addr if rng.random() < .3 else Address(ip(rng))
+                if kind == "bbmd" and rng.random() < .3 and el.bbmdBDT:
+                    src = Address(rng.choice(el.bbmdBDT).addrTuple)
+                events.append(("up", spec_frame(m), src))
+        for ev in events:
+            n_t, n_s = len(tapped), len(sent)
+            exc = None
+            try:
+                if ev[0] == "run":
+                    vt.run(until=vt.now + 0.5)
+                elif ev[0] == "down":
+                    top.request(PDU(ev[2], destination=ev[1]))
+                else:
+                    # the UDP director fills in both addresses of a received datagram
+                    bottom.response(PDU(ev[1], source=ev[2], destination=me if rng.random() < .7 else LocalBroadcast()))
+            except EncodingError as e:
+                exc = {"r": "err", "k": "encoding"}
+            except Exception as e:
+                exc = {"r": "err", "k": core.exc_kind(e)}
+                ctx.fail("unexpected-exception", {"op": "service", "element": kind, "event": repr(ev)[:300]},
+                         "service element / codec raised %r" % (e,), op="service")
+            new_t, new_s = tapped[n_t:], sent[n_s:]
+            for i, (m, stored) in enumerate(new_t):
+                case = {"op": "enc", "m": m, "len": stored}
+                if i < len(new_s):
+                    hexs = new_s[i].hex()
+                    rep = {"r": "ok", "hex": hexs}
+                    if check_frame_header(ctx, case, hexs, m[0]) and len(new_s[i]) < 65536:
+                        back = ref_cdec(new_s[i])
+                        if back != {"r": "ok", "m": m, "len": len(new_s[i])}:
+                            ctx.fail("roundtrip", case, "frame built by %s reads back as %s" % (kind, core.canon(back)[:300]), op="service")
+                else:
+                    rep = exc or {"r": "nothing-sent"}
+                    if msg_in_domain(m):
+                        ctx.fail("encode-refused", case, "a message built by %s was not sent: %r" % (kind, rep), op="service")
+                cases.append(case)
+                impl_replies.append(rep)
+    if ctx.model_ok and cases:
+        b = core.Driver("drv_c09").ask(cases)
+        b = [{k: v for k, v in r.items() if k in ("r", "hex", "k")} for r in b]
+        ctx.compare_stream("service", cases, impl_replies, b, sig=sig)
+    else:
+        for c in cases:
+            ctx.count("service")
+    for c in cases[:2]:
+        ctx.sample({"stream": "service", "case": short_case(c)})
+    vt.reset()
+
+
 # ---------------------------------------------------------------- generators
 
 IPS = [0, 1, 127, 128, 255]
@@ -713,6 +845,25 @@ def shard_exh(ctx, spec):
         run_cases(ctx, "dec-exh-%d" % length, [{"op": "dec", "hex": h} for h in hexes])
 
 
+def shard_other(ctx, spec):
+    """datagrams of length 3 and 4 that do NOT start with 0x81: every (first,
+    second) octet pair with a few tails each (the model proves the refusal
+    depends on the first octet only: bvll_refuses_type)"""
+    lo, hi, tails, seed = spec
+    import random
+    rng = random.Random(seed)
+    cases = []
+    for b0 in range(lo, hi):
+        if b0 == 0x81:
+            continue
+        for b1 in range(256):
+            for _ in range(tails):
+                for n in (1, 2):
+                    tail = bytes(rng.choice([0, 3, 4, 5, rng.getrandbits(8)]) for _ in range(n))
+                    cases.append({"op": "cdec", "hex": (bytes([b0, b1]) + tail).hex()})
+    run_cases(ctx, "cdec-other-3-4", cases)
+
+
 def corpus_cases():
     import glob, json, os
     out = []
@@ -730,6 +881,7 @@ def run(ctx):
     enc = gen_enc(ctx, rng)
     impl_enc = run_cases(ctx, "enc", enc)
     oracle_mutated_table(ctx, rng)
+    service_stream(ctx, ctx.sub_rng("c09-service"))
     run_cases(ctx, "cdec", gen_cdec(ctx, rng))
     frames = [bytes.fromhex(r["hex"]) for r in impl_enc if r.get("r") == "ok"]
     run_cases(ctx, "cdec-mutated", gen_mutated(ctx, rng, frames))
@@ -743,6 +895,9 @@ def run(ctx):
         step = 1 << 18
         specs += [(4, 0x81000000 + lo, 0x81000000 + lo + step) for lo in range(0, 1 << 24, step)]
     core.run_shards(ctx, "harness.c09", "shard_exh", specs)
+    tails = 1 if ctx.quick else 6
+    core.run_shards(ctx, "harness.c09", "shard_other",
+                    [(lo, lo + 16, tails, ctx.seed * 1000 + lo) for lo in range(0, 256, 16)])
     ctx.extra["exhaustive_datagram_length"] = {"any": 2, "starting_0x81": 3 if ctx.quick else 4}
 
 
